@@ -3,6 +3,7 @@
 # bytedance/gopkg dependency, the legacy unsafex variant copied from /repo.
 set -eu
 cd "$(dirname "$0")"
+mkdir -p .work
 export GOFLAGS=-mod=mod GOPROXY=off GOSUMDB=off GOTOOLCHAIN=local
 H=harness
 [ -f $H/go.sum ] || cp /repo/go.sum $H/go.sum
@@ -10,6 +11,8 @@ MC=$(go env GOMODCACHE)/github.com/bytedance/gopkg@v0.1.1
 for v in poison yield; do
   D=shim/gopkg-$v
   if [ ! -f $D/.stamp ] || [ shim/mcache_$v.go.txt -nt $D/.stamp ]; then
+    ( flock 9
+    if [ ! -f $D/.stamp ] || [ shim/mcache_$v.go.txt -nt $D/.stamp ]; then
     rm -rf $D; mkdir -p $D/lang $D/cloud
     cp -r $MC/lang/mcache $MC/lang/dirtmake $MC/lang/span $D/lang/
     cp -r $MC/cloud/metainfo $D/cloud/
@@ -18,9 +21,6 @@ for v in poison yield; do
     cp $MC/go.mod $D/go.mod
     cp shim/mcache_$v.go.txt $D/lang/mcache/mcache.go
     touch $D/.stamp
+    fi ) 9>.work/prepare.lock
   fi
 done
-# legacy unsafex variant (pre-go1.21 file), regenerated from /repo on every run
-mkdir -p $H/mon/legacyunsafex
-sed -e '/^\/\/go:build/d' -e '/^\/\/ +build/d' -e 's/^package unsafex/package legacyunsafex/' /repo/unsafex/unsafex_go100.go > $H/mon/legacyunsafex/legacy_gen.go.tmp
-if ! cmp -s $H/mon/legacyunsafex/legacy_gen.go.tmp $H/mon/legacyunsafex/legacy_gen.go 2>/dev/null; then mv $H/mon/legacyunsafex/legacy_gen.go.tmp $H/mon/legacyunsafex/legacy_gen.go; else rm $H/mon/legacyunsafex/legacy_gen.go.tmp; fi
